@@ -278,8 +278,14 @@ def pool_run(fn, args, workers, deadline):
 
 
 def _call_batch(packed):
+    import copy
+
     fn, batch = packed
-    return [(arg, _guarded(fn, arg)) for arg in batch]
+    out = []
+    for arg in batch:
+        keep = copy.deepcopy(arg)  # the function may decorate its argument with unpicklable values
+        out.append((keep, _guarded(fn, arg)))
+    return out
 
 
 def short(s, n=300):
